@@ -1074,6 +1074,8 @@ def lock11(cfg):
                 k_ = y.get('k')
                 if k_ in ('ref', 'member') and y.get('name') != 'nullopt':
                     names.append(y)
+                elif k_ in ('bool', 'int', 'float', 'str', 'nullptr'):
+                    names.append(y)          # a literal is a VALUE (`return false;` of an optional<bool> is "definitely absent")
                 elif k_ == 'call' and y.get('ck') != 'ctor':
                     names.append(y)          # make_optional<...>(...) and friends build a VALUE
                 elif k_ == 'call' and y.get('ck') == 'ctor' and y.get('args') and not (y.get('cls') or '').startswith(('std::optional<', 'std::nullopt_t')):
